@@ -7,7 +7,7 @@ MCValues == 1..200
 MCMaxSizes == 0..2
 A(op, k) == [op |-> op, k |-> k]
 \* operations a thread may invoke
-MCAlphabet == {A("get", "a"), A("get", "b"), A("set", "a"), A("set", "b"), A("set", "c"),
+MCAlphabet == {A("get", "a"), A("get", "b"), A("has", "a"), A("set", "a"), A("set", "b"), A("set", "c"),
                A("del", "a"), A("clear", L!NONE), A("len", L!NONE), A("keys", L!NONE)}
 MCAlphabetSmall == {A("get", "a"), A("set", "a"), A("set", "b"), A("del", "a"), A("clear", L!NONE), A("len", L!NONE)}
 \* the pool manager's use of the container: get-or-create / clear, no dispose_func
